@@ -1046,6 +1046,10 @@ class Engine(object):
                     s.add(v * denom == z3.ToReal(k), k >= -lim, k <= lim)
                     if level >= 1 and name not in ints:
                         s.add(k % denom != 0)
+                    if level >= 1 and name in ints:
+                        # integer-typed data: alternate parity, so that means and halves of neighbouring
+                        # values are not integers (integer truncation in the float code becomes visible)
+                        s.add(k % (2 * denom) == (denom if i % 2 else 0))
                 if level >= 2 and len(ks) > 1:
                     s.add(z3.Distinct(*ks))
                 if s.check() == z3.sat:
